@@ -196,9 +196,26 @@ Section Walk.
     Qed.
 
     (* the first offset f of an entry that was not popped by D and is <= hb is at most first(b) *)
+    (* the log starts no later than b *)
+    Lemma log_start_le : log_start log <= rb_first b.
+    Proof.
+      destruct log as [|s0 l0] eqn:El; [exfalso; destruct pre, D; discriminate|]. cbn [log_start].
+      assert (Hin : In s0 log) by (rewrite El; now left).
+      rewrite <- El in *. destruct (position pre D b rest s0 Elog Hin) as [[_ Hlt]|[Heq|[Hr Hlt]]].
+      - pose proof (wf_lo_hi _ (wf_in _ Hin)). lia.
+      - subst s0. cbn. lia.
+      - (* s0 is the head of an ordered log, so it cannot come after b *)
+        exfalso. destruct Hwf as [_ Ho]. rewrite El in Ho. destruct Ho as [HF _]. rewrite Forall_forall in HF.
+        pose proof b_in_log as Hb. rewrite El in Hb. destruct Hb as [Hb|Hb].
+        + subst s0. pose proof (wf_lo_hi _ (wf_in _ Hin)). cbn in *. lia.
+        + specialize (HF _ Hb). pose proof (wf_lo_hi _ (wf_in _ Hin)). pose proof (wf_lo_hi _ (wf_in _ b_in_log)). cbn in *. lia.
+    Qed.
+
+    (* the first offset f of an entry that was not popped by D and is <= hb is at most first(b) *)
     Lemma start_behind : forall p f m, In (p, f, m) es -> ~ Pop f D -> f <= hb -> f <= rb_first b.
     Proof.
-      intros p f m He Hnp Hf. destruct (Hiw p f m He) as (_ & (bf & Hbf & Hff & _) & _).
+      intros p f m He Hnp Hf. destruct (Hiw p f m He) as (_ & [Hbefore|(bf & Hbf & Hff & _)] & _).
+      { pose proof log_start_le. lia. }
       destruct (position pre D b rest (SBatch bf) Elog Hbf) as [[[Hp|Hd] Hlt]|[Heq|[_ Hlt]]].
       - pose proof (wf_lo_hi _ (wf_in _ Hbf)) as Hl. cbn in Hl. cbn in Hlt. lia.
       - exfalso. apply Hnp. exists bf. split; auto.
